@@ -370,24 +370,26 @@ def bv_mkdtemp_guard(eng, st, args):
             ('bookkeeping-knows-the-previous-created-dirs', ForAll([xs_], (
                 mr[xs_] == eng.hread(st, 'Cache._created_dirs', oc.t)[xs_])), ['C12', 'C04', 'C03']),
         ]
-    nc, sv = env.get('new_cache'), env.get('sanitized_versions')
-    if isinstance(nc, Sym) and isinstance(sv, Sym):
-        # C06 ("names absent from the map have version None", "a version change invalidates"):
-        # the cache of this build records exactly the versions it was given -- the JSON form of
-        # the `versions` argument, nothing carried over from anywhere else
-        bd_facts = bd_facts + [
-            ('new-cache-records-exactly-the-given-versions',
-             And(eng.hread(st, 'Cache._func_versions', nc.t) == sv.t, sv.t == J.rt(vers.t)),
-             ['C06', 'C16'])]
-    else:
-        bd_facts = bd_facts + [('new-cache-records-exactly-the-given-versions',
-                                z3.BoolVal(False), ['C06', 'C16'])]
+    nc = env.get('new_cache')
+    # C06 ("names absent from the map have version None", "a version change invalidates"): the
+    # cache of this build records exactly the versions it was given -- the JSON form of the
+    # `versions` argument, nothing carried over from anywhere else, nothing left unsanitized
+    bd_facts = bd_facts + [
+        ('new-cache-records-exactly-the-given-versions',
+         eng.hread(st, 'Cache._func_versions', nc.t) == J.rt(vers.t)
+         if isinstance(nc, Sym) else z3.BoolVal(False), ['C06', 'C16', 'C05'])]
     return bd_facts + [
         ('name-is-str', J.is_str(J.base_of(bn.t)), ['C15']),
         ('func-callable', func.is_callable, ['C15']),
         ('versions-is-json-dict', And(J.is_dict(J.base_of(vers.t)), J.jsonable(vers.t)), ['C15']),
         ('cache-path-not-a-directory', kind0[cf] != K_DIR, ['C15']),
         ('stored-build-name-matches', name_ok, ['C15']),
+        # C15 ("a corrupt or truncated cache file is refused"): whatever regular file stands at
+        # the cache path has been parsed by Cache.read_immutable without error before the build
+        # starts -- there is no other way past it
+        ('existing-cache-file-was-read', Implies(
+            And(kind0[cf] == K_FILE, Not(eng.gread(eng.entry_state, 'cache_read')[cf])),
+            eng.gread(st, 'cache_read')[cf]), ['C15', 'C16']),
         ('nothing-happened-before', And(eng.gread(st, 'eff') == eng.gread(eng.entry_state, 'eff'),
                                         eng.gread(st, 'ncalls')
                                         == eng.gread(eng.entry_state, 'ncalls'),
@@ -424,7 +426,7 @@ def root_builders_closed(c):
 
 
 CONTRACTS.append(guard_set(Contract(
-    M + 'build_versioned', props=['C15', 'C17', 'C12', 'C04', 'C03', 'C06'],
+    M + 'build_versioned', props=['C15', 'C17', 'C12', 'C04', 'C03', 'C06', 'C05', 'C16'],
     params={'cache_filename': PYV, 'build_name': PYV, 'versions': PYV, 'func': callback(),
             'args': VARARGS, 'kwargs': KWARGS},
     returns=PYV,
@@ -501,6 +503,71 @@ CONTRACTS.append(Contract(
 ))
 CONTRACTS[-1].fresh_props = ['C11', 'C05']
 CONTRACTS[-1].exit_obligations = fence_exit
+CONTRACTS[-1].ghost_updates = lambda c: {'exec_n': c.gold('exec_n') + 1}
+
+
+# ---------------------------------------------------------------------------------------------------
+# the public query methods (C13, C04, C05, C01): each records exactly one simple operation whose
+# name and arguments are the documented ones -- the sanitized path and, for reads, the name of the
+# comparison kind that was asked for -- and hands back what _exec_simple_operation returned
+def query_guard(opname, argnames):
+    def guard(eng, st, cargs):
+        op = cargs['operation'].t
+        args = eng.hread(st, 'Operation.args', op)
+        conds = [eng.hread(st, 'SimpleOperation.name', op) == str_lit(opname), PyV.is_PList(args)]
+        items = PyV.litems(args)
+        for a in argnames:
+            conds.append(PyVs.is_cons(items))
+            elt = PyVs.hd(items)
+            if a == 'file_comparison':
+                # the comparison kind that was asked for, by name
+                fc = eng.cur_args['file_comparison']
+                conds.append(elt == PyV.PStr(eng.hread(st, 'FileComparison.name', fc.t)))
+            elif a == 'top_down':
+                conds.append(elt == eng.intr.to_pyv(eng.cur_args['top_down']))
+            else:
+                # the absolute normalised form of the path that was given
+                f0 = J.base_of(eng.intr.to_pyv(eng.cur_args[a]))
+                conds.append(Implies(J.is_str(f0), elt == PyV.PStr(abspath(PyV.ps(f0)))))
+            items = PyVs.tl(items)
+        conds.append(PyVs.is_nil(items))
+        return [('records-the-documented-operation', And(conds),
+                 ['C13', 'C04', 'C05', 'C01', 'C07'])]
+    return guard
+
+
+def query_exit(eng, st, ctrl, v):
+    if ctrl not in ('ret', 'ok'):
+        return []
+    n0, n1 = eng.gread(eng.entry_state, 'exec_n'), eng.gread(st, 'exec_n')
+    return [('returns-only-after-recording-exactly-one-operation', n1 == n0 + 1,
+             ['C13', 'C04', 'C05', 'C01'])]
+
+
+for _nm, _args in [('read_text', ['filename', 'file_comparison']),
+                   ('read_binary', ['filename', 'file_comparison']),
+                   ('declare_read', ['filename', 'file_comparison']),
+                   ('list_dir', ['dir_']), ('is_file', ['filename']), ('is_dir', ['filename']),
+                   ('exists', ['filename']), ('get_size', ['filename']),
+                   ('walk', ['dir_', 'top_down'])]:
+    _ps = {'self': FB}
+    for _a in _args:
+        _ps[_a] = ANY if _a == 'file_comparison' else PYV
+    _c = Contract(
+        M + _nm, props=['C13', 'C04', 'C05', 'C01'], params=_ps,
+        returns=(None if _nm == 'declare_read' else
+                 (OBJ('FileObj') if _nm.startswith('read_') else PYV)),
+        requires=(lambda args: lambda c: wf_builder(c) + [
+            ('wf-' + a, J.wf(c.a(a))) for a in args if a != 'file_comparison'])(_args),
+        raises=[ExcSpec('RuntimeError', exact=False), ExcSpec('TypeError', exact=False),
+                ExcSpec('OSError', exact=False), ExcSpec('ValueError', exact=False)],
+        modifies=lambda c: EXEC_MODS + ['Operation.return_value', 'Operation.is_finished',
+                                        'SimpleOperation.exception_type_str', SUBOPS],
+        notes='public query method: records one simple operation')
+    _c.call_guards = {'file_builder.FileBuilder._exec_simple_operation': query_guard(_nm if not
+                      _nm.startswith(('read_', 'declare_')) else 'read', _args)}
+    _c.exit_obligations = query_exit
+    CONTRACTS.append(_c)
 
 # _build_file / _subbuild as seen by their callers (bodies verified separately)
 # (_build_file's contract is defined with its verification further below)
@@ -598,7 +665,7 @@ def subbuild_taken(c):
 
 
 SUBBUILD_INNER = Contract(
-    M + '_subbuild', props=['C11', 'C07', 'C08', 'C17'],
+    M + '_subbuild', props=['C11', 'C07', 'C08', 'C17', 'C05', 'C01'],
     params={'self': FB, 'func': callback()}, returns=PYV,
     requires=lambda c: wf_builder(c) + [
         ('is-subbuild', And(OPT_OP.is_some(op_of(c)),
@@ -620,10 +687,10 @@ SUBBUILD_INNER = Contract(
                     ensures=lambda c: append_only(c, True) + [
                         ('raised-iff-function-called',
                          c.new('ComplexOperation.raised', cur_op(c))
-                         == (c.gnew('ncalls') > c.gold('ncalls')), ['C08', 'C10']),
+                         == (c.gnew('ncalls') > c.gold('ncalls')), ['C08', 'C10', 'C05', 'C01']),
                         ('setup-flag-untouched',
                          c.new('ComplexOperation.setup_failed', cur_op(c))
-                         == c.old('ComplexOperation.setup_failed', cur_op(c)), ['C08'])]),
+                         == c.old('ComplexOperation.setup_failed', cur_op(c)), ['C08', 'C05'])]),
             ExcSpec('KeyboardInterrupt', when=lambda c: Not(subbuild_taken(c)), guarded=True,
                     ensures=lambda c: append_only(c, True))],
     modifies=builder_mods,
@@ -708,7 +775,7 @@ PUBLIC_RUN_REQ = lambda c: wf_builder(c) + build_state_wf(c) + [('wf-args', J.wf
                                             ('kwargs-keys-are-str', J.is_dict(c.args['kwargs'].t))]
 
 SUBBUILD_PUB = Contract(
-    M + 'subbuild', props=['C11', 'C08', 'C17', 'C07'],
+    M + 'subbuild', props=['C11', 'C08', 'C17', 'C07', 'C01', 'C05'],
     params={'self': FB, 'func_name': PYV, 'func': callback(), 'args': VARARGS, 'kwargs': KWARGS},
     returns=PYV, ret_fresh=True,
     requires=lambda c: PUBLIC_RUN_REQ(c) + [('wf-name', J.wf(c.func_name))],
@@ -722,11 +789,11 @@ SUBBUILD_PUB = Contract(
 )
 SUBBUILD_PUB.exit_obligations = lambda eng, st, ctrl, exc: (bfwc_exit(eng, st, ctrl, exc)
                                                             + fence_exit(eng, st, ctrl, exc))
-SUBBUILD_PUB.fresh_props = ['C11']
+SUBBUILD_PUB.fresh_props = ['C11', 'C01', 'C05']
 CONTRACTS.append(SUBBUILD_PUB)
 
 BFWC = Contract(
-    M + 'build_file_with_comparison', props=['C11', 'C08', 'C17', 'C07', 'C10'],
+    M + 'build_file_with_comparison', props=['C11', 'C08', 'C17', 'C07', 'C10', 'C01', 'C05'],
     params={'self': FB, 'filename': PYV, 'file_comparison': ANY, 'func_name': PYV,
             'func': callback(), 'args': VARARGS, 'kwargs': KWARGS},
     returns=PYV, ret_fresh=True,
@@ -751,14 +818,14 @@ def bfwc_exit(eng, st, ctrl, exc):
     is_exception = exc_issub(exc.cls, 'Exception')
     called = eng.gread(st, 'ncalls') > eng.gread(eng.entry_state, 'ncalls')
     return [('failed-attempt-marked-raised', Implies(is_exception, eng.hread(st, RAISED, sub.t)),
-             ['C08', 'C10', 'C01']),
+             ['C08', 'C10', 'C01', 'C05']),
             ('setup-failed-iff-function-never-called', Implies(
-                is_exception, eng.hread(st, SETUPF, sub.t) == Not(called)), ['C08', 'C10', 'C01'])]
+                is_exception, eng.hread(st, SETUPF, sub.t) == Not(called)), ['C08', 'C10', 'C01', 'C05'])]
 
 
 BFWC.exit_obligations = lambda eng, st, ctrl, exc: (bfwc_exit(eng, st, ctrl, exc)
                                                     + fence_exit(eng, st, ctrl, exc))
-BFWC.fresh_props = ['C11']
+BFWC.fresh_props = ['C11', 'C01', 'C05']
 CONTRACTS.append(BFWC)
 
 
@@ -1855,7 +1922,7 @@ APPLY_MODS = ['BuildDirs._build_dir_counts', 'BuildDirs._created_dirs_map',
               'FileBackups._next_backup_index', 'SimpleOperationExecutor._hash_cache',
               'g:eff', 'g:fs_kind', 'g:fs_epoch', 'g:rm_attempts', 'g:vstate', 'g:bd_res']
 APPLY = Contract(
-    M + '_apply_cached_suboperations', props=['C01', 'C14', 'C03', 'C02', 'C12', 'C04'],
+    M + '_apply_cached_suboperations', props=['C01', 'C14', 'C03', 'C02', 'C12', 'C04', 'C05'],
     params={'self': FB, 'operation': OBJ('ComplexOperation')},
     requires=lambda c: record_axioms(c) + nbf_axioms(c) + [
         ('record-wf', RWF(c.operation)), ('is-complex', is_complex(c.operation))],
@@ -1883,7 +1950,7 @@ APPLY = Contract(
 CONTRACTS.append(APPLY)
 
 UNAPPLY = Contract(
-    M + '_unapply_cached_suboperations', props=['C14', 'C01'],
+    M + '_unapply_cached_suboperations', props=['C14', 'C01', 'C05', 'C04'],
     params={'self': FB, 'operation': OBJ('ComplexOperation'), 'count': INT},
     requires=lambda c: record_axioms(c) + nbf_axioms(c) + [
         ('record-wf', RWF(c.operation)), ('is-complex', is_complex(c.operation)),
